@@ -633,9 +633,15 @@ class Interp:
                         res = M._BINOPS[type(n.op)](cur, v)
                     except Exception:
                         res = TOP
-                elif isinstance(cur, list) and isinstance(v, list) and isinstance(n.op, ast.Add):
-                    cur.extend(v)
-                    res = cur
+                elif isinstance(cur, list) and isinstance(v, (list, tuple, Iter)) and not isinstance(v, CountIter) and isinstance(n.op, ast.Add):
+                    if isinstance(v, LazyGen):
+                        v = self.lazy_drain(v, s3)
+                    if v is None:
+                        res = TOP
+                        self.imprecise.append('%s += ... with items that are not determined (line %s)' % (txt, n.lineno))
+                    else:
+                        cur.extend(self._seq_of(v))
+                        res = cur
                 else:
                     res = TOP
                 self.assign(n.target, res, s3, n, quiet=True)
@@ -644,6 +650,22 @@ class Interp:
 
     def assign(self, t, v, s, node, quiet=False):
         if isinstance(t, (ast.Tuple, ast.List)):
+            if isinstance(v, LazyGen):
+                v = self.lazy_drain(v, s)
+                v = TOP if v is None else v
+            if isinstance(v, Iter) and not isinstance(v, CountIter):
+                v = self._seq_of(v)                   # unpacking consumes the iterator
+            elif isinstance(v, (dict, set, frozenset, range)) or (isinstance(v, str) and not isinstance(v, (M._StringLetters, TextObj)) and is_concrete(v)):
+                v = self._seq_of(v)
+            stars = [i for i, e in enumerate(t.elts) if isinstance(e, ast.Starred)]
+            if isinstance(v, (tuple, list)) and len(stars) == 1 and len(v) >= len(t.elts) - 1:
+                i = stars[0]
+                tail = len(t.elts) - i - 1
+                vals = list(v)
+                parts = vals[:i] + [vals[i:len(vals) - tail]] + (vals[len(vals) - tail:] if tail else [])
+                for e, x in zip(t.elts, parts):
+                    self.assign(e.value if isinstance(e, ast.Starred) else e, x, s, node, quiet)
+                return
             if isinstance(v, (tuple, list)) and len(v) == len(t.elts) and not any(isinstance(e, ast.Starred) for e in t.elts):
                 for e, x in zip(t.elts, v):
                     self.assign(e, x, s, node, quiet)
@@ -960,6 +982,7 @@ class Interp:
                         else:
                             exits.append(st)
                         continue
+                    real_none = False
                     if isinstance(iterable, LazyGen):
                         item = self.lazy_take(st.env['__iter@%d' % n.lineno], st)
                         if item is None:
@@ -967,13 +990,14 @@ class Interp:
                             item = STOP
                     elif isinstance(iterable, Iter):
                         item = st.env['__iter@%d' % n.lineno].take()
+                        real_none = item is None               # an iterator over known items: None is an item like any other
                     else:
                         item = self.h.iter_item(self, n, k, st)
                         if item is None and k == 0:
                             self.unknown_branches.append('iteration over %s, which is not determined (line %s)' % (_text(n.iter)[:60], n.lineno))
                     if item is STOP:
                         exits.append(st)
-                    elif item is not None:
+                    elif item is not None or real_none:
                         self.assign(n.target, item, st, n, quiet=True)
                         enter.append(st)
                     else:
@@ -1002,6 +1026,14 @@ class Interp:
             if not enter:
                 break
             res = self.block(n.body, enter)
+            dv = getattr(iterable, 'derived_from', None) if isinstance(iterable, Iter) else None
+            if dv is not None:
+                src_, pos_, len_ = dv
+                left = iterable.pos < len(iterable.items)
+                if (src_.pos, len(src_.items)) != (pos_, len_) or (left and (res.get('break') or res.get('return') or res.get('raise'))):
+                    self.imprecise.append('the loop over %s reads or leaves the underlying iterator while the eager interpretation has already '
+                                          'taken its items (line %s)' % (_text(n.iter)[:50], n.lineno))
+                    iterable.derived_from = None
             cur = []
             for kind, lst in res.items():
                 if kind in ('fall', 'continue'):
@@ -1335,6 +1367,12 @@ class Interp:
             if isinstance(root, ast.Name) and root.id not in s.env and root.id not in self._locals():
                 r = self.model.resolve_expr(fn, f)       # ClassName._helper(obj, ...): a private method called through its class
                 if isinstance(r, M.FunctionInfo):
+                    if 'classmethod' in r.decorators:
+                        owner = self.model.resolve_expr(fn, f.value)
+                        if isinstance(owner, M.ClassInfo):
+                            self._receiver = owner       # ClassName._helper(...) of a class method: cls is that class
+                            return r.node, True, r
+                        return None
                     return r.node, False, r
         if isinstance(f, ast.Attribute) and self.model is not None and self.heap:
             # method of a heap object of a repository class:  self.parent.keys()
@@ -2094,6 +2132,16 @@ class Interp:
             return list(v)
         return None
 
+    def _seq_in(self, v, s):
+        """As _seq_of; a heap object that defines __iter__ is iterated by interpreting that method."""
+        if isinstance(v, LazyGen):
+            v = self.lazy_drain(v, s)
+            if v is None:
+                return None
+        if isinstance(v, Obj):
+            v = self.materialize(v, s)
+        return self._seq_of(v)
+
     def _functional_call(self, n, fname, fval, args, kwargs, s):
         """functools / operator / itertools / collections helpers and calls of callable values.  (result,) or None."""
         ext = fval.name if isinstance(fval, M.External) else None
@@ -2108,7 +2156,7 @@ class Interp:
         if ext in ('operator.itemgetter', 'itemgetter') and args and not kwargs:
             return (OpCall('itemgetter', args),)
         if ext in ('functools.reduce', 'reduce') and len(args) in (2, 3) and not kwargs:
-            seq = self._seq_of(args[1])
+            seq = self._seq_in(args[1], s)
             if seq is None:
                 return (TOP,)
             if len(args) == 3:
@@ -2128,13 +2176,13 @@ class Interp:
         if ext in ('itertools.chain', 'chain') and not kwargs:
             out = []
             for a in args:
-                seq = self._seq_of(a)
+                seq = self._seq_in(a, s)
                 if seq is None:
                     return (TOP,)
                 out.extend(seq)
             return (Iter(out),)
         if ext in ('itertools.chain.from_iterable', 'chain.from_iterable') and len(args) == 1 and not kwargs:
-            outer = self._seq_of(args[0])
+            outer = self._seq_in(args[0], s)
             if outer is None:
                 return (TOP,)
             out = []
@@ -2148,7 +2196,7 @@ class Interp:
             return (Iter([args[0]] * args[1]),)
         if ext in ('itertools.product', 'product') and args and set(kwargs) <= {'repeat'}:
             import itertools as _it
-            seqs = [self._seq_of(a) for a in args]
+            seqs = [self._seq_in(a, s) for a in args]
             if any(x is None for x in seqs) or not isinstance(kwargs.get('repeat', 1), int):
                 return (TOP,)
             return (Iter(list(_it.product(*seqs, repeat=kwargs.get('repeat', 1)))),)
@@ -2173,12 +2221,12 @@ class Interp:
                 top = (max(rng) + 1) if len(rng) else 0
                 seq = [c.take() for _ in range(top)]
                 return (Iter([seq[i] for i in rng]),)
-            seq = self._seq_of(args[0])
+            seq = self._seq_in(args[0], s)
             if seq is None:
                 return (TOP,)
             return (Iter(list(_it.islice(seq, *args[1:]))),)
         if ext in ('itertools.starmap', 'starmap') and len(args) == 2 and not kwargs:
-            seq = self._seq_of(args[1])
+            seq = self._seq_in(args[1], s)
             if seq is None:
                 return (TOP,)
             out = []
@@ -2192,12 +2240,12 @@ class Interp:
             return (Iter(out),)
         if ext in ('itertools.zip_longest', 'zip_longest') and args and set(kwargs) <= {'fillvalue'}:
             import itertools as _it
-            seqs = [self._seq_of(a) for a in args]
+            seqs = [self._seq_in(a, s) for a in args]
             if any(x is None for x in seqs):
                 return (TOP,)
             return (Iter(list(_it.zip_longest(*seqs, **kwargs))),)
         if ext in ('itertools.groupby', 'groupby') and len(args) in (1, 2) and set(kwargs) <= {'key'}:
-            seq = self._seq_of(args[0])
+            seq = self._seq_in(args[0], s)
             keyf = args[1] if len(args) == 2 else kwargs.get('key')
             if seq is None:
                 return (TOP,)
@@ -2252,7 +2300,7 @@ class Interp:
         if isinstance(n.func, ast.Name) and n.func.id not in s.env:
             nm = n.func.id
             if nm in ('sorted', 'max', 'min') and 'key' in kwargs and args and set(kwargs) <= {'key', 'reverse', 'default'}:
-                seq = self._seq_of(args[0]) if len(args) == 1 else list(args)
+                seq = self._seq_in(args[0], s) if len(args) == 1 else list(args)
                 if seq is None:
                     return (TOP,)
                 keyed = []
@@ -2276,7 +2324,7 @@ class Interp:
                 except TypeError:
                     return (TOP,)
             if nm in ('any', 'all') and len(args) == 1 and not kwargs and isinstance(args[0], (list, tuple, Iter)):
-                seq = self._seq_of(args[0])
+                seq = self._seq_in(args[0], s)
                 if seq is not None:
                     for item in seq:
                         t = self.truth_in(item, s)
@@ -2286,7 +2334,7 @@ class Interp:
                             return (nm == 'any',)
                     return (nm == 'all',)
             if nm == 'dict' and len(args) == 1 and isinstance(args[0], (list, tuple, Iter)):
-                seq = self._seq_of(args[0])
+                seq = self._seq_in(args[0], s)
                 if seq is not None and all(isinstance(x, (list, tuple)) and len(x) == 2 for x in seq):
                     try:
                         d = dict((k, v) for k, v in seq)
@@ -3274,13 +3322,23 @@ class Interp:
            or (isinstance(n.func, ast.Name) and n.func.id in ('filter', 'map') and n.func.id not in s.env and len(args) == 2):
             kind = (fval.name if isinstance(fval, M.External) else n.func.id).split('.')[-1]
             seq = args[1]
-            if isinstance(seq, Iter) and not isinstance(seq, CountIter):
+            src_iter = None
+            if isinstance(seq, LazyGen):
+                seq = self.lazy_drain(seq, s)
+                if seq is None:
+                    return TOP
+            if isinstance(seq, CountIter) and kind == 'takewhile':
+                src_iter = seq
+                seq = [seq.start + (seq.pos + i) * seq.step for i in range(64)]
+            elif isinstance(seq, Iter) and not isinstance(seq, CountIter):
+                src_iter = seq
                 seq = seq.items[seq.pos:]
             elif isinstance(seq, (dict, set, frozenset, range)) or (isinstance(seq, str) and not isinstance(seq, M._StringLetters)):
                 seq = self._seq_of(seq)
             if isinstance(seq, (list, tuple)) and len(seq) <= 64:
-                out, ok, dropping = [], True, True
+                out, ok, dropping, seen = [], True, True, 0
                 for item in seq:
+                    seen += 1
                     r = self.apply_value(args[0], [item], {}, s, n.lineno) if args[0] is not None else (item,)
                     if r is None:
                         ok = False
@@ -3305,8 +3363,15 @@ class Interp:
                             out.append(item)
                     elif t:
                         out.append(item)
+                if ok and isinstance(src_iter, CountIter) and seen >= 64 and len(out) >= 64:
+                    ok = False                   # no end in sight
                 if ok:
-                    return Iter(out)
+                    res = Iter(out)
+                    if src_iter is not None:
+                        # the items were taken from a stateful iterator: it has moved on (takewhile: up to and including the item that failed)
+                        src_iter.pos += seen
+                        res.derived_from = (src_iter, src_iter.pos, len(src_iter.items))
+                    return res
             return TOP
         if isinstance(fval, M.External) and fval.name in ('itertools.count', 'count') and all(isinstance(a, int) for a in args) and len(args) <= 2 and not kwargs:
             return CountIter(*args)
